@@ -37,6 +37,18 @@ type Edge struct {
 	From int  `json:"from"`
 	To   int  `json:"to"`
 	Fail bool `json:"fail,omitempty"`
+	// Ret > 0 (raw-graph test only): the upcaster returns type name(Ret-1)
+	// instead of its declared target - a raw upcaster that routes by payload.
+	// The walk continues from the type that was returned.
+	Ret int `json:"ret,omitempty"`
+}
+
+// next is the type an application of e leads to.
+func (e Edge) next() int {
+	if e.Ret > 0 {
+		return e.Ret - 1
+	}
+	return e.To
 }
 
 type Stored struct {
@@ -102,7 +114,7 @@ func rawUpcaster(id int, e Edge) eventbus.UpcastFunc {
 		t, _ := json.Marshal(trail)
 		m["trail"] = t
 		out, _ := json.Marshal(m)
-		return out, name(e.To), nil
+		return out, name(e.next()), nil
 	}
 }
 
@@ -158,6 +170,8 @@ func Run(c *Case) *vkit.Outcome {
 		off    eventbus.Offset
 		ts     time.Time
 		failAt *ehCall
+		// loop: the walk returned to a type already passed; ambiguous: see below
+		loop, ambiguous, deviated bool
 	}
 	var wants, origs []want
 	for i, ev := range c.Events {
@@ -180,6 +194,7 @@ func Run(c *Case) *vkit.Outcome {
 		var trail []int
 		steps := 0
 		multi := false
+		visited := map[int]bool{cur: true}
 		for cur >= 0 {
 			ei, ok := first[cur]
 			if !ok {
@@ -189,6 +204,12 @@ func Run(c *Case) *vkit.Outcome {
 				multi = true
 			}
 			e := c.Edges[ei]
+			if visited[e.To] {
+				// a returned type led the walk to an upcaster whose declared
+				// target was already passed: giving up here (the callback
+				// sees the original event) and applying it are both accepted
+				w.ambiguous = true
+			}
 			if e.Fail {
 				w.typ, w.data = tn, orig
 				w.failAt = &ehCall{name(cur), string(withTrail(ev.Payload, trail))}
@@ -201,8 +222,24 @@ func Run(c *Case) *vkit.Outcome {
 			}
 			trail = append(trail, ei)
 			steps++
-			cur = e.To
+			if visited[e.next()] {
+				// the walk came back to a type it had already passed: it can
+				// never reach a type without upcaster, so the callback sees
+				// the original event
+				w.typ, w.data, w.loop = tn, orig, true
+				o.Class("returned_type_leads_back_to_a_type_already_passed")
+				break
+			}
+			cur = e.next()
+			visited[cur] = true
 			w.typ, w.data = name(cur), withTrail(ev.Payload, trail)
+			if e.Ret > 0 && e.next() != e.To {
+				w.deviated = true
+			}
+		}
+		if w.deviated && !w.loop && w.failAt == nil {
+			o.Nontrivial = true
+			o.Class("walk_follows_a_returned_type_other_than_the_declared_target")
 		}
 		if w.failAt == nil && steps >= 2 && multi {
 			o.Nontrivial = true
@@ -219,7 +256,9 @@ func Run(c *Case) *vkit.Outcome {
 		}
 		w := wants[idx]
 		idx++
-		if se.Type != w.typ || !vkit.JSONEqual(se.Data, w.data) {
+		if w.ambiguous && se.Type == origs[idx-1].typ && vkit.JSONEqual(se.Data, origs[idx-1].data) {
+			// stopped at the declared-target check: accepted
+		} else if se.Type != w.typ || !vkit.JSONEqual(se.Data, w.data) {
 			o.Failf("", "event %d (stored type %q): callback saw type %q data %s; the model walk along first-registered upcasters gives type %q data %s (edges %+v)", idx-1, c.storedName(idx-1), se.Type, se.Data, w.typ, w.data, c.Edges)
 		}
 		if se.Offset != w.off || !se.Timestamp.Equal(w.ts) {
@@ -249,7 +288,11 @@ func Run(c *Case) *vkit.Outcome {
 			o.Class("registry_empty_when_the_replay_started")
 		}
 	}
-	if c.ErrHandler {
+	loops := false
+	for _, w := range wants {
+		loops = loops || w.loop || w.ambiguous
+	}
+	if c.ErrHandler && !loops {
 		var wantCalls []ehCall
 		for _, w := range wants {
 			if w.failAt != nil {
